@@ -332,6 +332,7 @@ def ctx_table():
 
 
 CTXS = ctx_table()
+NONCOPY_UNSAFE = {"while-body", "for-body", "closure-body", "listcomp-body"}
 
 
 class Module:
@@ -540,8 +541,44 @@ VARIANTS = ["none", "fu", "single:from_str", "single:from_int", "single:from_val
 
 # ------------------------------------------------------------------------------ project generators
 
-def project_all_contexts(g, under, variant="fu", tname="Attempts"):
-    """one hooked newtype (+ one hookless), a site in EVERY context, single file"""
+def reorder(proj, mod, order):
+    """permute the declarations of `mod` (order = list of old indices in their new order) and
+    re-index the sites and newtypes that live in it"""
+    assert sorted(order) == list(range(len(mod.decls)))
+    new_of = {old: new for new, old in enumerate(order)}
+    mod.decls = [mod.decls[old] for old in order]
+    mi = proj.modules.index(mod)
+    for s in proj.sites:
+        if s.module == mi and s.decl_index is not None:
+            s.decl_index = new_of[s.decl_index]
+    for nt in proj.newtypes:
+        if nt.module == mi:
+            nt.index = new_of[nt.index]
+
+
+def uses_first(proj, mod, nts):
+    """move the declarations of the given newtypes (and their use_ helpers) BELOW everything else
+    except `main`: every site of theirs is then a forward reference (use before declaration)"""
+    moved = []
+    for nt in nts:
+        moved += [nt.index, nt.index + 1]          # the newtype and its use_T helper (added right after it)
+    last = len(mod.decls) - 1                       # def main
+    rest = [i for i in range(len(mod.decls)) if i not in moved and i != last]
+    reorder(proj, mod, rest + moved + [last])
+
+
+def shuffle_decls(g, proj, mod):
+    """any order of top-level declarations is the same program for the checker (it has a collect pass)"""
+    last = len(mod.decls) - 1
+    body = list(range(last))
+    g.rng.shuffle(body)
+    reorder(proj, mod, body + [last])
+
+
+def project_all_contexts(g, under, variant="fu", tname="Attempts", order="decl-first"):
+    """one hooked newtype (+ one hookless), a site in EVERY context, single file.
+    order: 'decl-first' (types above their uses), 'use-first' (every site above the newtype
+    declaration: forward references), 'shuffled'"""
     p = Project()
     m = Module("main")
     p.modules.append(m)
@@ -561,11 +598,17 @@ def project_all_contexts(g, under, variant="fu", tname="Attempts"):
         other = g.newtype(p, m, "Other" + tname, "int", "single:from_int")
         g.site_nested(p, m, nt, other)
         g.site_nested(p, m, other, nt)
+    else:
+        other = None
     m.add(["def main() -> None:", "    pass"], "(DFunction \"main\" [])")
+    if order == "use-first":
+        uses_first(p, m, [nt, free] + ([other] if other else []))
+    elif order == "shuffled":
+        shuffle_decls(g, p, m)
     return p
 
 
-def project_variants(g, under, variants):
+def project_variants(g, under, variants, order="decl-first"):
     """many newtypes with different method lists, two sites each (hook selection)"""
     p = Project()
     m = Module("main")
@@ -576,6 +619,10 @@ def project_variants(g, under, variants):
         g.site_in_function(p, m, nt)
         g.site_return(p, m, nt)
     m.add(["def main() -> None:", "    pass"], "(DFunction \"main\" [])")
+    if order == "use-first":
+        uses_first(p, m, [nt for nt in p.newtypes])
+    elif order == "shuffled":
+        shuffle_decls(g, p, m)
     return p
 
 
@@ -847,7 +894,10 @@ def runtime_program(g, with_known):
             k += 1
             table.append((k, "site_early", nt, "direct", "early"))
             continue
-        ctxs = rng.sample(safe, 6 if nt.spec_hook() else 2)
+        # a String / Vec argument used inside a loop body or a closure is moved more than once (rustc E0507/E0382:
+        # ownership, C02 territory) — keep those contexts for the Copy underlying types only
+        pool = safe if nt.under in ("int", "float") else [c for c in safe if c[0] not in NONCOPY_UNSAFE]
+        ctxs = rng.sample(pool, 6 if nt.spec_hook() else 2)
         forms = ["direct"] * len(ctxs)
         if with_known and nt.spec_hook() and nt.under == "int" and name == "Att":
             ctxs += [CTXS[0], CTXS[0]]
@@ -880,6 +930,9 @@ def runtime_program(g, with_known):
                  "    if sel == %d:" % (2 * k), "        println(%s(%s))" % (fn, bad)]
     main += ["    println(\"done\")"]
     m.add(main, None)
+    if not with_known:
+        # forward references at run time too: these two newtypes are declared BELOW every site function
+        uses_first(p, m, [decl["Att"], decl["Email"]])
     return p, table
 
 
@@ -916,8 +969,15 @@ def run(chk):
         projects.append(("all-contexts/%s" % under, project_all_contexts(g, under)))
     projects.append(("all-contexts/int/single", project_all_contexts(g, "int", "single:from_int", "Score")))
     projects.append(("all-contexts/str/nohook", project_all_contexts(g, "str", "two-from", "Tag")))
+    # the same, every site ABOVE the declaration of its newtype (forward reference), and shuffled
+    for under in ("int", "str", "float"):
+        projects.append(("all-contexts/%s/use-before-decl" % under, project_all_contexts(g, under, order="use-first")))
+    projects.append(("all-contexts/int/single/use-before-decl", project_all_contexts(g, "int", "single:from_int", "Score", order="use-first")))
+    projects.append(("all-contexts/str/shuffled", project_all_contexts(g, "str", order="shuffled")))
+    projects.append(("all-contexts/int/shuffled", project_all_contexts(g, "int", "single:from_raw", "Level", order="shuffled")))
     for under in ("int", "str", "float"):
         projects.append(("variants/%s" % under, project_variants(g, under, VARIANTS)))
+    projects.append(("variants/int/use-before-decl", project_variants(g, "int", VARIANTS, order="use-first")))
     projects.append(("known-selection", project_known_selection(g)))
     projects.append(("lowercase", project_lowercase(g)))
     for under in ("int", "str", "float"):
@@ -927,7 +987,7 @@ def run(chk):
     for i in range(n_rand):
         under = chk.rng.choice(["int", "str", "float"])
         vs = [chk.rng.choice(VARIANTS) for _ in range(8)]
-        projects.append(("random-variants/%d" % i, project_variants(g, under, vs)))
+        projects.append(("random-variants/%d" % i, project_variants(g, under, vs, order=chk.rng.choice(["decl-first", "use-first", "shuffled"]))))
         projects.append(("random-multi/%d" % i, project_multi(g, under, chk.rng.choice(["two", "three"]))))
 
     cases = [emit_case(p, k) for k, (_, p) in enumerate(projects)]
@@ -982,6 +1042,9 @@ def run(chk):
                 others = [e for i in range(len(p.modules)) if i != s.module for e in impl_entries[i] if e[0] == s.marker]
                 key = (s.ctx, s.form, s.nt.under, getattr(s.nt, "variant", "?"), "x" if s.module != s.nt.module else "s")
                 dist[str(key[:2])] = dist.get(str(key[:2]), 0) + 1
+                if s.module == s.nt.module and not s.own:
+                    fw = "forward-reference" if s.decl_index < s.nt.index else "after-declaration"
+                    dist["order:" + fw] = dist.get("order:" + fw, 0) + 1
                 n_sites += 1
                 chk.count_case((label, s.marker, key), nontrivial=(want is not None and want[0] == "checked"))
                 if want is None:
@@ -1008,6 +1071,7 @@ def run(chk):
                 fails.append({"project": label, "site": s.src(), "context": s.ctx, "newtype_variant": getattr(s.nt, "variant", "?"),
                               "underlying": s.nt.under, "site_module": p.modules[s.module].name,
                               "newtype_module": p.modules[s.nt.module].name, "classes_not_listed_as_known": cls,
+                              "site_declared_before_newtype": bool(s.module == s.nt.module and s.decl_index < s.nt.index),
                               "why": why, "files": p.files()})
 
         vlib.log("[c17] site comparison done at %.1fs" % (time.time() - t0))
